@@ -311,7 +311,7 @@ func init() {
 				{Name: "child-dies-during-its-own-start", Pkg: "actor", Func: "ZZ_C08", Preempt: 1, Params: pm("D", 1, "F", 2, "mode", 6),
 					Witnesses: []string{"child-died-during-its-start"}, Deadline: 60 * time.Minute, ReplayAttempts: 8},
 				{Name: "parent-restarted-then-stopped", Pkg: "actor", Func: "ZZ_C08", Preempt: 1, Params: pm("D", 1, "F", 2, "mode", 4),
-					Witnesses: []string{"parent-restarted-with-children", "app-context-cancelled-before-shutdown"}, Deadline: 60 * time.Minute, ReplayAttempts: 8},
+					Witnesses: []string{"parent-restarted-with-children", "app-context-cancelled-before-shutdown", "duplicate-spawn-of-a-live-child"}, Deadline: 60 * time.Minute, ReplayAttempts: 8},
 			}
 		},
 		Bounds: func(tier string) string {
